@@ -129,14 +129,14 @@ Scope of `WFNet` (the hypothesis of `edif_roundtrip` / `edif_roundtrip_text`) ag
 * identifiers are the ones `_edifify_netlist` assigns (legal EDIF identifiers, distinct ignoring case
   among siblings), read back from the implementation.
 
-`parse_compose_parse` (parse(compose(parse f)) = parse f for every accepted f) is NOT proved as a
-theorem: it needs the closure property "every netlist the reader returns satisfies `WFNet` after
-`_edifify_netlist`".  The two defects that made that false at the first pin (direction-less ports,
-one-pin arrays) are repaired in the implementation (31cdd4c, 2bda99b) and in the model; what is still
-missing is a model of `_edifify_netlist` itself (identifier assignment and cell order are read from the
-implementation, C17 / C16) and a proof that `ofSExp`'s output satisfies the remaining clauses of
-`WFNet` (sibling names distinct ignoring case, pins used once, references to preceding cells).  It is
-evaluated on the implementation for every generated text and bundled file.
+`parse_compose_parse` is proved in `Props/C03Closure.lean` for `f = compose(n)` (`reader_image_closed`: the
+reader's output is again inside `WFNet`; `reader_image_fixed_point` / `parse_compose_parse`: reading what
+is written from it gives it back, equality of netlists when the time stamp is the same;
+`edifify_names_identity`, `edifify_order_identity`: `_edifify_netlist` leaves the reader's output
+unchanged) and in `Props/C03Fragment.lean` for every text of the C05 fragment (`parse_compose_parse_accepted`:
+texts the writer did not produce — references in any letter case, bit nets in any order).  For accepted
+texts outside that fragment it is evaluated on the implementation (every generated text, every bundled
+file).
 -/
 
 /-- **edif_roundtrip_cell / cell_roundtrip** — the statement for ONE cell in the reader's scope: the
